@@ -110,6 +110,15 @@ SUMMARY = {
  'C16-agent11': 'aiter_chunks reads ahead in the default executor: a read still in flight when a retry rewinds the stream eats the first block of the retried body',
  'C17-agent11': 'unlock refuses scrypt keys above 1 GiB of work memory, init / add-key still issue them',
  'C20-agent11': 'debts below one millisecond are dropped instead of accumulated: many small blocks (or concurrency >= 63) are never throttled',
+ 'C02-agent12': 'requires_auth bounded loop falls off its end and returns None (same as C03-agent10, found independently)',
+ 'C03-agent12': 'a failed snapshot cancels its rate limiter, whose wrappers then report EOF: uploads still in flight commit truncated chunks',
+ 'C07-agent12': 'requires_auth (coroutine branch): the call repeated after re-authorisation drops its return value - exists() answers None, the chunk is uploaded again',
+ 'C08-agent12': 'delete builds the chunk locations as a one-shot map() that a DEBUG-only log line exhausts: with debug logging nothing is deleted',
+ 'C09-agent12': 'bare except around the workers became except Exception: a cancelled snapshot never sets the abort flag, the producer spins on a full queue',
+ 'C12-agent12': 'Local.upload_stream opens its temporary unbuffered: copyfileobj ignores short writes, a full disk truncates silently',
+ 'C13-agent12': 'Local.download_stream takes the length from stat() of the name before opening the file: a replacing upload in between mixes two versions',
+ 'C14-agent12': 'utcnow() replaced by fromtimestamp(time.time()): the recorded utc_timestamp is local time',
+ 'C18-agent12': 'snapshot-loader pool used as a context manager in an async generator: leaving it early joins the workers on the loop thread',
  'C20-agent1': 'transfer block size floor of 16000 bytes: below 32 kB/s each block owes more than the capped debt',
 }
 rows = []
